@@ -150,6 +150,120 @@ def run(ctx):
             ctx.violation("C05 fails on the real code (variable-rate engine, constant ratio): output differs between schedules %s (%s)" % (hs, cr.create_line(job["cfg"])),
                           {"cfg": job["cfg"], "env": job["env"], "N": job["N"], "schedules": {k: v[0] for k, v in out.items()}, "hashes": hs})
     ctx.count("vr_constant_ratio_jobs", nvr)
+    # ---- variable-rate engine, the ratio MOVES: the stream is then a function of the input, the configuration and the ratio as a
+    #      function of the output position.  The same moves (immediate or slewed, across octave boundaries or inside one) are applied at
+    #      the same output positions; what differs is how the output requests in between are cut (down to single frames, so that request
+    #      boundaries fall inside the cross-fade of a stage switch) and how the input function supplies
+    def make_vrm_job(rng, idx):
+        # most jobs are drawn from the class in which the engine must be exact (no listed finding applies)
+        for attempt in range(8):
+            job = make_vrm_job1(rng, idx)
+            if not vr_known_class(job) or rng.chance(.1):
+                break
+        return job
+
+    def make_vrm_job1(rng, idx):
+        mx = rng.choice([2.0, 4.0, 4.0, 8.0, 3.0, 16.0])
+        import math
+        nm = 1 + rng.below(3)
+        immediate = rng.chance(.6)          # slews that cross an octave are known finding F12; immediate moves must be exact
+        moves = []
+        pos = 0
+        for i in range(nm + 1):
+            r = mx * 2.0 ** -rng.uniform(0.0, min(5.0, 1.0 + math.log2(mx) + 2.0))
+            if rng.chance(.3):
+                r = rng.choice([mx, mx / 2, mx / 4, 1.0, 1.8, 2.3, 0.9, 1.2])
+            r = min(r, mx)
+            moves.append((pos, r, 0 if immediate else rng.choice([0, 1, 100, 3000])))
+            pos += rng.choice([1, 100, 511, 512, 513, 700, 5000]) if rng.chance(.5) else 1 + rng.below(8000)
+        cfg = {"ir": repr(mx), "or": "1", "recipe": 4, "qflags": 32, "itype": rng.choice([0, 1, 2, 3]), "otype": rng.choice([0, 1, 2, 3]), "ioflags": 8, "ch": 1 + rng.below(2)}
+        return {"cfg": cfg, "env": {}, "moves": moves, "tail": 600 + rng.below(5000), "seed": rng.next() & 0xffffffff, "idx": idx}
+
+    def vr_stage(r):
+        """octave stage the engine works in at ratio r: (1,2] -> 0, (2,4] -> 1, (4,8] -> 2 ...; (1/2,1] -> -1 ...  Returns the set of
+        candidates (two at a power of two, where rounding of the step decides)"""
+        import math
+        l = math.log2(r)
+        c = {math.ceil(l) - 1}
+        if abs(l - round(l)) < 1e-9:
+            c |= {round(l) - 1, round(l)}
+        return c
+
+    def vr_known_class(job):
+        """which listed finding, if any, the moves of this job fall under.
+        F12: stage switches are decided at chunk starts, which restart with every request - a SLEW across an octave boundary, or an
+             immediate upward move over two or more octaves (the second switch waits for the first cross-fade and then for a chunk start);
+        F42: a stage switch, up or down, that involves stage 2 or above (a ratio beyond 4 on either side): the coarser half-band stages are
+             restarted / trimmed and their fast/full cross-fade started from whatever input is buffered at that moment.
+        The ratio at the start of a move is the previous target or, if the previous slew had not finished, anywhere on its path."""
+        lo = hi = float(job["cfg"]["ir"])
+        mv = job["moves"]
+        found = set()
+        for i, (at, r, slew) in enumerate(mv):
+            span = (mv[i + 1][0] if i + 1 < len(mv) else at + job["tail"]) - at
+            a, b = min(lo, r), max(hi, r)
+            if slew:
+                if min(vr_stage(a)) != max(vr_stage(b)):
+                    found.add("F12")
+                lo, hi = (r, r) if span >= slew else (a, b)
+                continue
+            so, sn = vr_stage(lo) | vr_stage(hi), vr_stage(r)
+            if r > lo and max(sn) - min(so) >= 2:
+                found.add("F12")
+            if (so != sn or len(sn) > 1) and max(so | sn) >= 2:
+                found.add("F42")
+            lo = hi = r
+        return sorted(found)
+
+    def vrm_schedule(job, k):
+        rng = common.Rng(job["seed"] + 977 * k)
+        ops = [cr.create_line(job["cfg"]), "limit 4000000", "setfn %d" % rng.choice([0, 0, 1, 64, 1000])]
+        pat = rng.choice([["d1000000"], ["d1"], ["d%d" % (1 + rng.below(3000)) for _ in range(12)], ["d7", "d1", "d4096"]])
+        style = k if k < 2 else 2 + rng.below(2)        # 0: one request per span, 1: requests of about 100, 2: random, 3: single frames around a move
+
+        def span(n, after_move):
+            out = []
+            while n:
+                if style == 0: c = n
+                elif style == 1: c = min(n, 100)
+                elif style == 2: c = min(n, rng.choice([1, 3, 37, 64, 300, 511, 512, 1000, 5000]))
+                else: c = 1 if after_move < 600 and rng.chance(.7) else min(n, 1 + rng.below(400))
+                out.append("pull %d %s" % (c, " ".join(pat))); n -= c; after_move += c
+            return out
+        mv = job["moves"]
+        for i, (at, r, slew) in enumerate(mv):
+            ops.append("ratio %r %d" % (r, slew))
+            nxt = mv[i + 1][0] if i + 1 < len(mv) else at + job["tail"]
+            ops += span(nxt - at, 0)
+        ops.append("hash")
+        return ops
+
+    def vrm_work(job):
+        out = {}
+        for k in range(4):
+            ops = vrm_schedule(job, k)
+            out["s%d" % k] = (ops, cr.run_trace(exe, ops, job["env"], timeout=300))
+        return job, out
+
+    nvrm = 0
+    for job, out in cr.pmap(vrm_work, [make_vrm_job(ctx.rng, i) for i in range(60 if ctx.quick else 2000)]):
+        ctx.count("evaluations")
+        hs = {}
+        for name, (ops, tr) in out.items():
+            ctx.count("schedules_run")
+            h = tr.hashes[-1] if tr.hashes and tr.rc == 0 else "none(rc=%s %s)" % (tr.rc, tr.err[-200:])
+            hs[name] = " ".join(t for t in h.split() if not t.startswith("pos="))
+        nvrm += 1
+        ctx.hist("vr_moves", len(job["moves"]) - 1)
+        cls = [k for k in vr_known_class(job) if k in known]
+        ctx.hist("vr_moves_class", "+".join(cls) or "strict")
+        if len(set(hs.values())) > 1 and cls:
+            ctx.known(cls[0], known[cls[0]]["what"]); ctx.count("known_finding_hits"); ctx.count("vr_moving_ratio_known_jobs")
+        elif len(set(hs.values())) > 1:
+            ctx.violation("C05 fails on the real code (variable-rate engine, ratio moved at fixed output positions %s): output differs between "
+                          "request partitions %s (%s)" % (job["moves"], hs, cr.create_line(job["cfg"])),
+                          {"cfg": job["cfg"], "moves": job["moves"], "schedules": {k: v[0] for k, v in out.items()}, "hashes": hs})
+    ctx.count("vr_moving_ratio_jobs", nvrm)
     # ---- locality (Properties/C05 locality_runs; Cr/Cone.lean): one input frame of the REAL engine is moved; every output frame that
     #      changes must have that input frame inside its cone, as the compiled driver computes it (`cr.cone` = coneI) from the exported plan
     def loc_job(i):
